@@ -1291,10 +1291,11 @@ impl Kademlia {
                                     return None;
                                 }
 
+                                // A vacant entry is the slot a new peer could be written to: an
+                                // empty placeholder or the node that would be replaced. It never
+                                // describes `peer`, so only occupied entries are targets.
                                 match self.routing_table.entry(Key::from(peer)) {
                                     KBucketEntry::Occupied(entry) => Some(entry.clone()),
-                                    KBucketEntry::Vacant(entry) if !entry.address_store.is_empty() =>
-                                        Some(entry.clone()),
                                     _ => None,
                                 }
                             }).collect();
